@@ -334,6 +334,15 @@ impl WorkerDir {
         let _ = std::fs::remove_dir_all(&root);
         std::fs::create_dir_all(root.join("a/src")).unwrap();
         std::fs::create_dir_all(root.join("deep/er/b/src")).unwrap();
+        // the second working directory also carries tool configuration files a compiler or a tool
+        // it shells out to might discover (the first one has none)
+        let b = root.join("deep/er/b");
+        let _ = std::fs::write(b.join("rustfmt.toml"), "max_width = 60\ntab_spaces = 2\nhard_tabs = true\n");
+        let _ = std::fs::write(b.join(".rustfmt.toml"), "max_width = 60\n");
+        let _ = std::fs::write(b.join(".editorconfig"), "root = true\n[*]\nindent_style = tab\nindent_size = 3\nend_of_line = crlf\n");
+        let _ = std::fs::write(b.join(".clang-format"), "BasedOnStyle: Google\nIndentWidth: 3\nColumnLimit: 50\n");
+        let _ = std::fs::write(b.join("pdl.toml"), "[output]\nbanner = false\n");
+        let _ = std::fs::write(b.join(".pdlrc"), "banner=false\n");
         WorkerDir { root }
     }
     /// Second-input files (test vectors) under the same relative name in both cwd copies.
@@ -525,12 +534,16 @@ pub fn strip_ansi(b: &[u8]) -> Vec<u8> {
     out
 }
 
-const ENV_KEYS: [&str; 34] = [
+const ENV_KEYS: [&str; 40] = [
     "LANG", "LC_ALL", "LC_COLLATE", "LC_NUMERIC", "TZ", "HOME", "USER", "LOGNAME", "HOSTNAME", "SHELL", "PWD", "OLDPWD", "PATH", "TERM", "NO_COLOR",
     "CLICOLOR_FORCE", "FORCE_COLOR", "COLUMNS", "CI", "DEBUG", "VERBOSE", "RUST_LOG", "RUST_BACKTRACE_VERIF_IGNORED", "RUSTFLAGS", "CARGO_MANIFEST_DIR",
     "CARGO_PKG_VERSION", "OUT_DIR", "PROFILE", "TMPDIR", "XDG_CONFIG_HOME", "SOURCE_DATE_EPOCH", "PDL_DEBUG", "PDLC_OPTIONS", "PDL_PATH",
+    "CARGO_CRATE_NAME", "CARGO_PKG_NAME", "CARGO_BIN_NAME", "RUSTFMT", "RUSTC", "CARGO",
 ];
-const ENV_VALS: [&str; 14] = ["", "1", "0", "C", "en_US.UTF-8", "tr_TR.UTF-8", "xterm-256color", "dumb", "/nonexistent", "/tmp", "Europe/Paris", "always", "315532800", "true"];
+const ENV_VALS: [&str; 20] = [
+    "", "1", "0", "C", "en_US.UTF-8", "tr_TR.UTF-8", "xterm-256color", "dumb", "/nonexistent", "/tmp", "Europe/Paris", "always", "315532800", "true",
+    "pdl_runtime", "pdl_compiler", "pdl_derive", "pdl-tests", "pdlc", "/usr/bin/false",
+];
 
 /// Swarm-style draw of the perturbation vector.
 pub fn draw_perturb(rng: &mut Rng, backend: Backend, ref_out: &ProcOut, has_test_file: bool) -> Perturb {
@@ -555,6 +568,8 @@ pub fn draw_perturb(rng: &mut Rng, backend: Backend, ref_out: &ProcOut, has_test
         for _ in 0..n {
             let k = rng.pick(&ENV_KEYS).to_string();
             let v = rng.pick(&ENV_VALS).to_string();
+            // PATH: half of the time the real search path of this machine (tools the compiler might shell out to)
+            let v = if k == "PATH" && rng.below(2) == 0 { std::env::var("PATH").unwrap_or(v) } else { v };
             if !p.env.iter().any(|(kk, _)| *kk == k) {
                 p.env.push((k, v));
             }
